@@ -218,6 +218,42 @@ func init() {
 		m.nodes[b] = n
 		return nilErr()
 	}
+	// os.Stat / os.Lstat: an *os.fileStat built from the model's node (name, size, directory bit); its
+	// methods are the standard library's own.
+	stat := func(fr *frame, args []value) value {
+		i := fr.i
+		p := fsPathArg(args[0])
+		n := i.fs().nodes[p]
+		if n == nil {
+			return tuple{iface{}, i.fsErr(fr, "ErrNotExist")}
+		}
+		op := i.prog.ImportedPackage("os")
+		ft := op.Type("fileStat").Type()
+		st := zero(ft).(structure)
+		fields := ft.Underlying().(*types.Struct)
+		for k := 0; k < fields.NumFields(); k++ {
+			switch fields.Field(k).Name() {
+			case "name":
+				st[k] = path.Base(p)
+			case "size":
+				if l, ok := concreteLen(n.data); ok {
+					st[k] = int64(l)
+				} else {
+					st[k] = ropeLen(symStr{p: n.data})
+				}
+			case "mode":
+				if n.dir {
+					st[k] = uint32(1<<31 | 0o755)
+				} else {
+					st[k] = uint32(0o644)
+				}
+			}
+		}
+		var v value = st
+		return tuple{iface{t: types.NewPointer(ft), v: &v}, nilErr()}
+	}
+	intrinsics["os.Stat"] = stat
+	intrinsics["os.Lstat"] = stat
 	intrinsics["os.ReadFile"] = func(fr *frame, args []value) value {
 		m := fr.i.fs()
 		n := m.nodes[fsPathArg(args[0])]
